@@ -1386,7 +1386,16 @@ VmTrap vm_core_execute(VmState *vm) {
                 vm_release(&vm->heap, arr);
                 return trap_error(vm, VM_ERR_TYPE_ERROR, "ARR_REMOVE: not an array");
             }
-            uint32_t idx = (uint32_t)(idx_v.tag == TAG_INT ? idx_v.as.i64 : 0);
+            /* bounds-checked like ARR_GET / ARR_SET: the whole 64-bit index must be in [0, length) */
+            if (idx_v.tag != TAG_INT || idx_v.as.i64 < 0 ||
+                idx_v.as.i64 >= (int64_t)arr.as.array->length) {
+                int64_t bad = idx_v.tag == TAG_INT ? idx_v.as.i64 : -1;
+                uint32_t len = arr.as.array->length;
+                vm_release(&vm->heap, arr);
+                return trap_error(vm, VM_ERR_OUT_OF_BOUNDS,
+                                  "Array index %lld out of bounds [0..%u)", (long long)bad, len);
+            }
+            uint32_t idx = (uint32_t)idx_v.as.i64;
             vm_array_remove(arr.as.array, idx);
             stack_push(vm, arr);
             break;
